@@ -6,7 +6,7 @@ from lib import symx
 LEVEL = 'model_checking'
 MANIFEST = {'category': 'model_checking', 'engine': 'symx+z3',
  'technique': 'exhaustive bounded exploration (symx choose) of line streams through the real parse.into_sink -> ConnectionManager -> Controller pipeline with a recording fake file; the passthrough text flow on an opaque symbolic line',
- 'text': 'Every stream of <= 4 lines (quick) / <= 5 (thorough) over a pool of line kinds (well-formed messages on known and undescribed interfaces, messages whose name or argument count the shipped description does not know, chatter, blank, whitespace-only, a final line without newline), both --supress settings: the k-th output item is the k-th line\'s decoded message or its stripped text, passthrough items and only those vanish under --supress, at every readline() the output of all earlier lines is already written (so every truncation yields a prefix plus close notices), and only Closed notices follow EOF. Separately, for a non-message line of arbitrary content and length (opaque symbolic text) the item is exactly the prefix plus the stripped line.',
+ 'text': 'Every stream of <= 4 lines (quick) / <= 5 (thorough) over a pool of line kinds (well-formed messages on known and undescribed interfaces, messages whose name or argument count the shipped description does not know, chatter, blank, whitespace-only, a final line without newline), both --supress settings: the k-th output item is the k-th line\'s decoded message or its stripped text, passthrough items and only those vanish under --supress, at every readline() the output of all earlier lines is already written (so every truncation yields a prefix plus close notices), and only Closed notices follow EOF. Separately, for a non-message line of arbitrary content and length (opaque symbolic text) the item is exactly the prefix plus the stripped line. Gap separators (C16) count as notices; a delete_id more than an hour after the creation and chatter with backslashes, quotes, tabs and control characters are in the pool.',
  'note': 'Exhaustive within the bound (every path is a run of the real pipeline; the solver owns the choice points). Message decoding itself is C01; histories ill-formed in the sense of C02 are excluded. Trusted: lib/symx.py (opaque-text proxy: any string operation other than ==\'\', strip(), str() aborts the check).'}
 EXPLANATION = MANIFEST['text']
 ASSUMPTIONS = ['line pool as listed in the evidence; message contents are C01\'s subject', 'FakeTextIO.readline models file/pipe/stdin line delivery']
